@@ -8,14 +8,22 @@ from extract import c09_cmds
 from gen import exprgen
 from props.c12 import workdir
 
-THEOREMS = ["IgVerif.C09.c09_refines", "IgVerif.C09.c09_skipped_no_effect", "IgVerif.C09.c09_after_taken_group", "IgVerif.C09.c09_undefined_is_zero",
+THEOREMS = ["IgVerif.C09.c09_string_text_irrelevant", "IgVerif.C09.c09_comment_text_irrelevant", "IgVerif.Skip.skipGroup_string", "IgVerif.Skip.skipC_clean",
+            "IgVerif.C09.c09_refines", "IgVerif.C09.c09_skipped_no_effect", "IgVerif.C09.c09_after_taken_group", "IgVerif.C09.c09_undefined_is_zero",
             "IgVerif.C09.c09_extraction_ok", "IgVerif.C09.c09_active_dispatch", "IgVerif.C09.c09_skip_dispatch", "IgVerif.C09.c09_handlers",
             "IgVerif.Cond.run_refines"]
-PARTIAL = [("text inside skipped groups (comments, string literals containing '#' at line start, line continuations)",
-            "the model works on directive lines; how skip_false_if_block finds directive lines inside skipped text is exercised by the generator "
-            "(comments and strings in skipped groups) and compared with gcc -E, not modelled")]
+PARTIAL = [("c09_line_abstraction (the directive lines the character-level scanner finds are the lines of the directive-level machine)",
+            "Model/SkipScan.lean models skip_false_if_block character by character (comments, string and character literals, null directives, "
+            "continuations) and is tied to the real code on generated skipped texts; c09_string_text_irrelevant / c09_comment_text_irrelevant are "
+            "theorems about it, but its composition with the directive-level machine (c09_refines) is by correspondence only; active (kept) text "
+            "is lexed by the ordinary tokenizer, which is not modelled")]
 
 MACROS = ["A", "B", "C"]
+# text without markers or effects: what it contains must not change which groups are kept
+NOISE = ['const char *n%d = "/*";', 'const char *n%d = "*/ #endif";', 'const char *n%d = "//"; /* x */', "char n%d = '\"';", "char n%d = '\\'';",
+         'const char *n%d = "\\"/*";', 'const char *n%d = "a\\\\";', "#", "#   ", "# /* null directive */", "/* multi\n#endif\n#else\nline */", "/***/", "/* ** */",
+         "/**** banner ****/", '// comment with " quote and /*', "// it's", "/* it's \" */", 'const char *n%d = "#endif";', "#\n#\n", "/* a */ /* b **/ int n%d;",
+         'const char *n%d = "x\\\n#endif";']
 
 
 class Gen:
@@ -92,7 +100,7 @@ class Gen:
                 lines.append("#define %s %s" % (m, t))
                 dirs.append("alias %s %s" % (m, t))
                 budget[0] -= 1
-            elif r < 0.6:
+            elif r < 0.59:
                 m = rng.choice(MACROS)
                 lines.append("#undef %s" % m)
                 dirs.append("undef %s" % m)
@@ -101,7 +109,11 @@ class Gen:
                 lines.append("#error kept error")
                 dirs.append("error")
                 budget[0] -= 1
-            elif r < 0.68:
+            elif r < 0.76:
+                t = rng.choice(NOISE)
+                self.k_noise = getattr(self, "k_noise", 0) + 1
+                lines.append(t % self.k_noise if "%d" in t else t)
+            elif r < 0.8:
                 k = self.marker()
                 lines.append('#include "inc.h"' if False else "int m%d; /* #else in a comment */ // #endif" % k)
                 dirs.append("text %d" % k)
@@ -307,5 +319,47 @@ def run(ck):
                              {"input.c": text, "cmd.txt": "parse_file -E input.c   vs   gcc -E -P -x c input.c\n"})
             if rc < 0:
                 ck.violation("crash", "parse_file died with signal %d on a well-nested conditional program" % -rc, {"input.c": text})
+        # ---- the character-level scanner of skipped text: Lean SkipScan model vs parse_file vs gcc --------------------------------------
+        texts = []
+        for _ in range(120 if quick else 3000):
+            body = []
+            depth = 0
+            for _ in range(rng.randrange(1, 9)):
+                r = rng.random()
+                if r < 0.55:
+                    t = rng.choice(NOISE)
+                    body.append(t % len(body) if "%d" in t else t)
+                elif r < 0.7:
+                    body.append("int lost%d;" % len(body))
+                elif r < 0.85:
+                    body.append(rng.choice(["#if 1", "#ifdef A", "#ifndef A", "# if 0", "#if defined(A) /* c */"]))
+                    depth += 1
+                elif depth > 0:
+                    body.append(rng.choice(["#endif", "# endif // x", "#else", "#elif 1"]))
+                    if body[-1].replace(" ", "").startswith("#endif"):
+                        depth -= 1
+            body += ["#endif"] * depth
+            end = rng.choice(["#endif", "# endif", "#else\nint kept_else;\n#endif", "#elif 1\nint kept_elif;\n#endif", "#endif /* tail */"])
+            texts.append("\n".join(body) + "\n" + end + "\nint kept_after;\n")
+        model = iglib.run_driver("lit", ["skip " + t.encode().hex() for t in texts], timeout=600)
+        for idx, (t, mline) in enumerate(zip(texts, model)):
+            src = wd / ("s%d.c" % idx)
+            text = "#if 0\n" + t
+            src.write_text(text)
+            rc, so, se = iglib.sh([str(bdir / "bin" / "parse_file"), "-E", src.name], cwd=str(wd), timeout=30)
+            kept = re.findall(r"\bint ((?:kept|lost)\w+) ?;", so)
+            mend, mrest = mline.split(" ", 1) if " " in mline else (mline, "")
+            rest = bytes.fromhex(mrest).decode("latin-1")
+            # what the model predicts survives: the scanner stops at the directive that ends the group; after #else / a true #elif the
+            # following text up to #endif is kept, then everything behind it
+            mk = re.findall(r"\bint ((?:kept|lost)\w+) ?;", re.sub(r'"(?:\\.|[^"\\\n])*"|/\*.*?\*/|//[^\n]*', " ", rest, flags=re.S))
+            ck.corr_case("skipped-text-vs-SkipScan-model", text if len(text) < 400 else text[:400], kept == mk, detail="parse_file keeps %s | model: ends with %s, keeps %s" % (kept, mend, mk),
+                         feature=["ends-" + mend] + (["string"] if '"' in t else []) + (["null-directive"] if re.search(r"^#\s*(/\*.*?\*/)?\s*$", t, re.M) else []))
+            ck.search_case("gcc-reference")
+            rc2, so2, se2 = iglib.sh(["gcc", "-E", "-P", "-x", "c", src.name], cwd=str(wd), timeout=30)
+            ref = re.findall(r"\bint ((?:kept|lost)\w+) ?;", so2)
+            if ref != kept:
+                ck.violation("groups-differ:skipped-text", "parse_file keeps %s, a conforming preprocessor (gcc -E) keeps %s" % (kept, ref),
+                             {"input.c": text, "cmd.txt": "parse_file -E input.c   vs   gcc -E -P -x c input.c\n"})
     finally:
         shutil.rmtree(wd, ignore_errors=True)
